@@ -6,9 +6,11 @@ package main
 // of the fragments so far as a single fragment of a fresh session.
 
 import (
+	"bytes"
 	"context"
 	"encoding/json"
 	"fmt"
+	"github.com/ozanh/ugo/encoder"
 	"sort"
 	"strings"
 
@@ -177,5 +179,79 @@ func init() {
 			out.put(r)
 			return nil
 		})
+	}
+}
+
+func init() {
+	// c12many <results.ndjson>: scripts importing n source modules for n around the operand-width boundaries of the
+	// module index (255 / 256 / 257, 300, 600): every body runs once, every import of module i gives module i's
+	// object, state set through one import is seen through the others - optimizer on / off, after encode / decode
+	subs["c12many"] = func(args []string) error {
+		out, err := newOut(args[0])
+		if err != nil {
+			return err
+		}
+		defer out.close()
+		total := 0
+		for _, n := range []int{3, 255, 256, 257, 300, 600} {
+			mm := ugo.NewModuleMap()
+			for i := 0; i < n; i++ {
+				mm.AddSourceModule(fmt.Sprintf("m%d", i), []byte(fmt.Sprintf("global loads\nloads = loads + 1\nreturn {id: %d, c: 0}", i)))
+			}
+			var sb strings.Builder
+			sb.WriteString("global loads\nloads = 0\n")
+			for i := 0; i < n; i++ {
+				// (200 variables, re-used by assignment: a script has at most 256 locals)
+				if i < 200 {
+					fmt.Fprintf(&sb, "v%d := import(\"m%d\")\n", i, i)
+				} else {
+					fmt.Fprintf(&sb, "v%d = import(\"m%d\")\n", i%200, i)
+				}
+			}
+			fmt.Fprintf(&sb, "a := import(\"m0\")\na.c = 5\nz := import(\"m%d\")\nz.c = 7\nbad := []\n", n-1)
+			for i := 0; i < n; i++ {
+				fmt.Fprintf(&sb, "if import(\"m%d\").id != %d { bad = append(bad, %d) }\n", i, i, i)
+			}
+			fmt.Fprintf(&sb, "f := func() { return [import(\"m0\").c, import(\"m%d\").c, import(\"m%d\").id] }\nreturn [bad, f(), loads]\n", n-1, n/2)
+			want := fmt.Sprintf("[[], [5, 7, %d], %d]", n/2, n)
+			for _, noopt := range []bool{false, true} {
+				for _, rt := range []bool{false, true} {
+					total++
+					r := N{"n": n, "noopt": noopt, "rt": rt, "ok": true}
+					func() {
+						defer func() {
+							if p := recover(); p != nil {
+								r["ok"], r["what"] = false, fmt.Sprint("panic: ", p)
+							}
+						}()
+						bc, err := ugo.Compile([]byte(sb.String()), ugo.CompilerOptions{ModuleMap: mm, NoOptimize: noopt})
+						if err != nil {
+							r["ok"], r["what"] = false, "compile: "+err.Error()
+							return
+						}
+						if rt {
+							var buf bytes.Buffer
+							if err := encoder.EncodeBytecodeTo(bc, &buf); err != nil {
+								r["ok"], r["what"] = false, "encode: "+err.Error()
+								return
+							}
+							if bc, err = encoder.DecodeBytecodeFrom(&buf, mm); err != nil {
+								r["ok"], r["what"] = false, "decode: "+err.Error()
+								return
+							}
+						}
+						ret, err := ugo.NewVM(bc).Run(ugo.Map{})
+						if err != nil || ret.String() != want {
+							r["ok"], r["what"] = false, fmt.Sprintf("returned %v / %v, expected %s ([modules with a wrong object], [m0.c, m%d.c, m%d.id], number of bodies executed)", ret, err, want, n-1, n/2)
+						}
+					}()
+					if !r["ok"].(bool) {
+						out.put(r)
+					}
+				}
+			}
+		}
+		out.put(N{"done": true, "n": total})
+		return nil
 	}
 }
